@@ -86,9 +86,9 @@ Lemma step_approve_inv w c role id w' :
                  (mkApproval id c (w_now w) (w_delay w) (has_role (w_roles w) c (timelocked (b_role b))) :: w_approvals w)
                  (w_execs w) (w_created w).
 Proof.
-  cbn [step]. destruct (get w id) as [a|] eqn:Hg; [|discriminate].
+  cbn [step]. unfold rbind. destruct (live w id) eqn:El; [|discriminate].
+  apply live_ok in El as [Hg Ho].
   destruct (b_role a =? role) eqn:Er; cbn [negb]; [|discriminate]. apply Z.eqb_eq in Er.
-  destruct (b_open a) eqn:Ho; cbn [negb]; [|discriminate].
   destruct (has_role (w_roles w) c (timelocked role)) eqn:Eh; cbn [negb]; [|discriminate].
   destruct (b_approved a) eqn:Ea; [discriminate|].
   destruct (b_approver a =? 0) eqn:Ep; cbn [negb]; [|discriminate]. apply Z.eqb_eq in Ep.
@@ -122,6 +122,7 @@ Proof.
   cbn [step]. unfold rbind. destruct (live w id) eqn:El; [|discriminate]. apply live_ok in El as [Hg Ho].
   destruct (has_role (w_roles w) c ROLE_KEEPER) eqn:Eh; cbn [negb]; [|discriminate].
   destruct (b_approver a =? 0) eqn:Ep; [discriminate|]. apply Z.eqb_neq in Ep.
+  destruct (is_member (w_roles w) (b_approver a)) eqn:Em; cbn [negb]; [|discriminate].
   destruct (has_role (w_roles w) (b_approver a) (timelocked (b_role a))) eqn:Er; cbn [negb]; [|discriminate].
   destruct (is_executable (b_approved a) (b_approved_at a) (w_delay w) (w_now w)) eqn:Ee; cbn [negb]; [|discriminate].
   unfold is_executable in Ee. apply Bool.andb_true_iff in Ee as [Ea Et]. apply Z.leb_le in Et.
@@ -560,8 +561,8 @@ Lemma approve_twice_rejected w c role id w' c2 role2 :
   step w (TApprove c role id) = Ok w' -> exists e, step w' (TApprove c2 role2 id) = Err e.
 Proof.
   intro H. apply step_approve_inv in H as (x & Hx & Ho & Hrl & Hh & Hna & Hp & Hc & ->).
-  cbn [step]. rewrite get_getl. cbn [w_bufs]. rewrite get_getl in Hx.
-  rewrite (getl_set_eq _ _ _ _ Hx). cbn [b_open b_role b_approved negb].
+  cbn [step]. unfold rbind, live. rewrite get_getl. cbn [w_bufs]. rewrite get_getl in Hx.
+  rewrite (getl_set_eq _ _ _ _ Hx). cbn [b_open b_role b_approved].
   destruct (negb (b_role x =? role2)); [eauto|].
   cbn [w_roles]. destruct (negb (has_role (w_roles w) c2 (timelocked role2))); eauto.
 Qed.
@@ -592,10 +593,7 @@ Lemma closed_rejects w id b o :
   (exists c, o = TExecute c id) \/ (exists c r, o = TApprove c r id) \/ (exists c, o = TCancel c id) ->
   exists e, step w o = Err e.
 Proof.
-  intros Hg Hc [[c ->]|[[c [r ->]]|[c ->]]]; cbn [step]; unfold rbind, live; rewrite Hg, ?Hc.
-  - eauto.
-  - destruct (negb (b_role b =? r)); cbn; eauto.
-  - eauto.
+  intros Hg Hc [[c ->]|[[c [r ->]]|[c ->]]]; cbn [step]; unfold rbind, live; rewrite Hg, Hc; eauto.
 Qed.
 
 Lemma cancel_or_execute_closes w o w' id :
